@@ -3,86 +3,551 @@ import PGM.Proofs.NdArr
 /-! helper lemmas and the semantic (`sem`) characterisation of every factor operation -/
 namespace PGM.Factor
 variable {α : Type} [Scalar α]
+set_option linter.unusedSectionVars false
+set_option linter.unusedVariables false
+
+/-! ### the common core of `expand` and `transpose`: moving the axes of `A` to their positions
+in `E` (the remaining `d` positions of `E` receive extent-1 axes) -/
+section core
+variable (a : NdArr α) (A E : List Attr) (c : Attr → Nat) (d : Nat)
+  (hs : a.shape = A.map c ++ List.replicate d 1)
+  (hA : A.Nodup) (hE : E.Nodup) (hsub : ∀ x ∈ A, x ∈ E) (hlen : E.length = A.length + d)
+include hs hA hE hsub hlen
+
+theorem core_ax_nodup : (A.map (fun x => E.idxOf x)).Nodup :=
+  nodup_map_of_inj_on A _ hA (fun x hx y hy h => idxOf_inj E x y (hsub x hx) (hsub y hy) h)
+
+theorem core_ax_lt : ∀ p ∈ A.map (fun x => E.idxOf x), p < (A.map c).length + d := by
+  intro p hp
+  obtain ⟨x, hx, rfl⟩ := List.mem_map.mp hp
+  have := List.idxOf_lt_length_iff.mpr (hsub x hx)
+  simp only [List.length_map]
+  omega
+
+theorem core_mem_ax_iff (x : Attr) (hx : x ∈ E) :
+    E.idxOf x ∈ A.map (fun x => E.idxOf x) ↔ x ∈ A := by
+  constructor
+  · intro h
+    obtain ⟨y, hy, hxy⟩ := List.mem_map.mp h
+    have := idxOf_inj E y x (hsub y hy) hx hxy
+    exact this ▸ hy
+  · intro h
+    exact List.mem_map.mpr ⟨x, h, rfl⟩
+
+theorem core_shape_getD (x : Attr) (hx : x ∈ E) :
+    (a.moveaxis (List.range (A.map (fun x => E.idxOf x)).length) (A.map (fun x => E.idxOf x))).shape.getD
+        (E.idxOf x) 0 = if x ∈ A then c x else 1 := by
+  have hnd := core_ax_nodup a A E c d hs hA hE hsub hlen
+  have hlt := core_ax_lt a A E c d hs hA hE hsub hlen
+  have hk : (A.map (fun x => E.idxOf x)).length = (A.map c).length := by simp
+  by_cases hxa : x ∈ A
+  · rw [if_pos hxa]
+    rw [NdArr.moveaxis_ones_shape_mem a (A.map c) d _ hs hnd hlt hk _
+      ((core_mem_ax_iff a A E c d hs hA hE hsub hlen x hx).mpr hxa)]
+    rw [idxOf_map_of_inj A (fun x => E.idxOf x) x
+      (fun y hy h => idxOf_inj E y x (hsub y hy) hx h)]
+    exact getD_map_idxOf A c 0 x hxa
+  · rw [if_neg hxa]
+    apply NdArr.moveaxis_ones_shape_not_mem a (A.map c) d _ hs hnd hlt hk
+    · have := List.idxOf_lt_length_iff.mpr hx
+      simp only [List.length_map]; omega
+    · exact fun h => hxa ((core_mem_ax_iff a A E c d hs hA hE hsub hlen x hx).mp h)
+
+theorem core_shape :
+    (a.moveaxis (List.range (A.map (fun x => E.idxOf x)).length) (A.map (fun x => E.idxOf x))).shape
+      = E.map (fun x => if x ∈ A then c x else 1) := by
+  have hnd := core_ax_nodup a A E c d hs hA hE hsub hlen
+  have hlt := core_ax_lt a A E c d hs hA hE hsub hlen
+  have hk : (A.map (fun x => E.idxOf x)).length = (A.map c).length := by simp
+  have hl := NdArr.moveaxis_ones_shape_length a (A.map c) d _ hs hnd hlt hk
+  apply List.ext_getElem
+  · rw [hl]; simp [hlen]
+  · intro i h1 h2
+    have hi : i < E.length := by simpa using h2
+    have := core_shape_getD a A E c d hs hA hE hsub hlen E[i] (List.getElem_mem hi)
+    rw [hE.idxOf_getElem i hi, List.getD_eq_getElem?_getD, List.getElem?_eq_getElem h1] at this
+    simpa using this
+
+theorem core_get (τ : Attr → Nat) (h1 : ∀ x ∈ A, τ x < c x) (h0 : ∀ x ∈ E, x ∉ A → τ x = 0) :
+    (a.moveaxis (List.range (A.map (fun x => E.idxOf x)).length) (A.map (fun x => E.idxOf x))).get
+        (E.map τ) = a.data.getD (ravel (A.map c) (A.map τ)) default := by
+  have hnd := core_ax_nodup a A E c d hs hA hE hsub hlen
+  have hlt := core_ax_lt a A E c d hs hA hE hsub hlen
+  have hk : (A.map (fun x => E.idxOf x)).length = (A.map c).length := by simp
+  rw [NdArr.get_moveaxis_ones a (A.map c) d _ hs hnd hlt hk (E.map τ)]
+  · congr 2
+    rw [List.map_map]
+    apply List.map_congr_left
+    intro x hx
+    exact getD_map_idxOf E τ 0 x (hsub x hx)
+  · rw [core_shape a A E c d hs hA hE hsub hlen]
+    apply NdArr.inRange_map
+    intro x hx
+    by_cases hxa : x ∈ A
+    · rw [if_pos hxa]; exact h1 x hxa
+    · rw [if_neg hxa, h0 x hx hxa]; exact Nat.one_pos
+  · intro p hp hpa
+    have hp' : p < E.length := by simp only [List.length_map] at hp; omega
+    rw [List.getD_eq_getElem?_getD, List.getElem?_map, List.getElem?_eq_getElem hp']
+    simp only [Option.map_some, Option.getD_some]
+    apply h0 _ (List.getElem_mem hp')
+    intro hxa
+    apply hpa
+    have := (core_mem_ax_iff a A E c d hs hA hE hsub hlen E[p] (List.getElem_mem hp')).mpr hxa
+    rwa [hE.idxOf_getElem p hp'] at this
+
+end core
+
+theorem expand_vals (f : Factor α) (D : Dom) :
+    (f.expand D).vals = NdArr.broadcastTo
+      (NdArr.moveaxis (f.vals.reshape (f.dom.shape ++ List.replicate (D.length - f.dom.length) 1))
+        (List.range (f.dom.attrs.map (fun x => D.attrs.idxOf x)).length)
+        (f.dom.attrs.map (fun x => D.attrs.idxOf x))) D.shape := rfl
+
+theorem length_le_of_contains (f : Factor α) (D : Dom) (hf : f.WF) (hc : D.contains f.dom = true) :
+    D.attrs.length = f.dom.attrs.length + (D.length - f.dom.length) := by
+  have hsub : ∀ x ∈ f.dom.attrs, x ∈ D.attrs := (Dom.contains_iff D f.dom).mp hc
+  have hle : f.dom.attrs.length ≤ D.attrs.length := List.Nodup.length_le_of_subset hf.1 hsub
+  simp only [Dom.length_attrs] at *
+  omega
 
 theorem sem_expand (f : Factor α) (D : Dom) (σ : Attr → Nat)
     (hf : f.WF) (hD : D.WF) (hc : D.contains f.dom = true) (ha : f.dom.Agrees D) (hσ : D.Valid σ) :
     (f.expand D).sem σ = f.sem σ := by
-  sorry
+  have hlen := length_le_of_contains f D hf hc
+  obtain ⟨hfd, hfs, hfw⟩ := hf
+  have hsub : ∀ x ∈ f.dom.attrs, x ∈ D.attrs := (Dom.contains_iff D f.dom).mp hc
+  have hag := (Dom.agrees_iff f.dom D hfd).mp ha
+  have hval := (Dom.valid_iff D hD σ).mp hσ
+  have hs : (f.vals.reshape (f.dom.shape ++ List.replicate (D.length - f.dom.length) 1)).shape
+      = f.dom.attrs.map f.dom.cfg ++ List.replicate (D.length - f.dom.length) 1 := by
+    rw [← Dom.shape_eq_map_cfg _ hfd]; rfl
+  have hshape := core_shape _ f.dom.attrs D.attrs f.dom.cfg _ hs hfd hD hsub hlen
+  have hdom : (f.expand D).dom = D := rfl
+  unfold sem
+  rw [expand_vals, hdom]
+  unfold NdArr.broadcastTo
+  rw [NdArr.get_ofFn _ _ _ (by
+    rw [Dom.shape_eq_map_cfg D hD]; exact NdArr.inRange_map _ _ _ hval)]
+  rw [hshape, zipWith_map_map]
+  rw [core_get _ f.dom.attrs D.attrs f.dom.cfg _ hs hfd hD hsub hlen]
+  · have hmap : f.dom.attrs.map (fun a => if (if a ∈ f.dom.attrs then f.dom.cfg a else 1) = 1 then 0 else σ a)
+        = f.dom.attrs.map σ := by
+      apply List.map_congr_left
+      intro x hx
+      have h1 := hval x (hsub x hx)
+      rw [hag x hx] at h1
+      simp only [if_pos hx]
+      split
+      · omega
+      · rfl
+    rw [hmap]
+    unfold NdArr.get
+    rw [hfs, Dom.shape_eq_map_cfg _ hfd]
+    rfl
+  · intro x hx
+    have h1 := hval x (hsub x hx)
+    rw [hag x hx] at h1
+    simp only [if_pos hx]
+    split <;> omega
+  · intro x hx hxa
+    simp [hxa]
 
 theorem expand_WF (f : Factor α) (D : Dom)
     (hf : f.WF) (hD : D.WF) (hc : D.contains f.dom = true) (ha : f.dom.Agrees D) :
     (f.expand D).WF := by
-  sorry
+  refine ⟨hD, rfl, ?_⟩
+  rw [expand_vals]
+  exact NdArr.ofFn_WF _ _
+
+theorem get_reshape_of_shape_eq (b : NdArr α) (s : List Nat) (h : b.shape = s) (idx : List Nat) :
+    (b.reshape s).get idx = b.get idx := by
+  subst h; rfl
+
+theorem transpose_dom (f : Factor α) (as : List Attr) : (f.transpose as).dom = f.dom.project as := rfl
+
+theorem transpose_attrs (f : Factor α) (as : List Attr) : (f.transpose as).dom.attrs = as := by
+  rw [transpose_dom, Dom.attrs_project]
+
+theorem transpose_vals (f : Factor α) (as : List Attr) :
+    (f.transpose as).vals = (NdArr.moveaxis f.vals
+        (List.range (f.dom.attrs.map (fun x => as.idxOf x)).length)
+        (f.dom.attrs.map (fun x => as.idxOf x))).reshape (as.map f.dom.cfg) := by
+  simp only [transpose, mk', Dom.axes, Dom.attrs_project, Dom.shape_project]
+
+theorem transpose_shape (f : Factor α) (as : List Attr) (hf : f.WF) (hp : as.Perm f.dom.attrs) :
+    (NdArr.moveaxis f.vals
+        (List.range (f.dom.attrs.map (fun x => as.idxOf x)).length)
+        (f.dom.attrs.map (fun x => as.idxOf x))).shape = as.map f.dom.cfg := by
+  obtain ⟨hfd, hfs, hfw⟩ := hf
+  have hs : f.vals.shape = f.dom.attrs.map f.dom.cfg ++ List.replicate 0 1 := by
+    rw [hfs, Dom.shape_eq_map_cfg _ hfd]; simp
+  rw [core_shape f.vals f.dom.attrs as f.dom.cfg 0 hs hfd (hp.symm.nodup hfd)
+    (fun x hx => hp.mem_iff.mpr hx) (by simpa using hp.length_eq)]
+  apply List.map_congr_left
+  intro x hx
+  rw [if_pos (hp.mem_iff.mp hx)]
 
 theorem sem_transpose (f : Factor α) (as : List Attr) (σ : Attr → Nat)
     (hf : f.WF) (hp : as.Perm f.dom.attrs) (hσ : f.dom.Valid σ) :
     (f.transpose as).sem σ = f.sem σ := by
-  sorry
-
-theorem transpose_attrs (f : Factor α) (as : List Attr) : (f.transpose as).dom.attrs = as := by
-  sorry
+  have hsh := transpose_shape f as hf hp
+  obtain ⟨hfd, hfs, hfw⟩ := hf
+  have hs : f.vals.shape = f.dom.attrs.map f.dom.cfg ++ List.replicate 0 1 := by
+    rw [hfs, Dom.shape_eq_map_cfg _ hfd]; simp
+  have hval := (Dom.valid_iff f.dom hfd σ).mp hσ
+  unfold sem
+  rw [transpose_attrs, transpose_vals, get_reshape_of_shape_eq _ _ hsh]
+  rw [core_get f.vals f.dom.attrs as f.dom.cfg 0 hs hfd (hp.symm.nodup hfd)
+    (fun x hx => hp.mem_iff.mpr hx) (by simpa using hp.length_eq) σ hval
+    (fun x hx hxa => absurd (hp.mem_iff.mp hx) hxa)]
+  unfold NdArr.get
+  rw [hfs, Dom.shape_eq_map_cfg _ hfd]
 
 theorem transpose_WF (f : Factor α) (as : List Attr) (hf : f.WF) (hp : as.Perm f.dom.attrs) :
     (f.transpose as).WF := by
-  sorry
+  have hsh := transpose_shape f as hf hp
+  refine ⟨?_, ?_, ?_⟩
+  · unfold Dom.WF
+    rw [transpose_attrs]
+    exact hp.symm.nodup hf.1
+  · rw [transpose_vals, transpose_dom, Dom.shape_project]; rfl
+  · rw [transpose_vals]
+    have hw : (NdArr.moveaxis f.vals
+        (List.range (f.dom.attrs.map (fun x => as.idxOf x)).length)
+        (f.dom.attrs.map (fun x => as.idxOf x))).WF := NdArr.ofFn_WF _ _
+    unfold NdArr.WF at hw ⊢
+    rw [hsh] at hw
+    exact hw
+
+theorem inRange_of_valid (D : Dom) (hD : D.WF) (σ : Attr → Nat) (hσ : D.Valid σ) :
+    InRange D.shape (D.attrs.map σ) := by
+  rw [Dom.shape_eq_map_cfg D hD]
+  exact NdArr.inRange_map _ _ _ ((Dom.valid_iff D hD σ).mp hσ)
+
+theorem expand_shape (f : Factor α) (D : Dom) : (f.expand D).vals.shape = D.shape := rfl
+
+theorem zipWith_shape (op : α → α → α) (a b : NdArr α) : (NdArr.zipWith op a b).shape = a.shape := rfl
+
+theorem expand_dom (f : Factor α) (D : Dom) : (f.expand D).dom = D := rfl
+
+theorem binop_dom (op : α → α → α) (f g : Factor α) : (binop op f g).dom = f.dom.merge g.dom := rfl
+
+theorem binop_vals (op : α → α → α) (f g : Factor α) :
+    (binop op f g).vals = (NdArr.zipWith op (f.expand (f.dom.merge g.dom)).vals
+      (g.expand (f.dom.merge g.dom)).vals).reshape (f.dom.merge g.dom).shape := rfl
 
 theorem sem_binop (op : α → α → α) (f g : Factor α) (σ : Attr → Nat)
     (hf : f.WF) (hg : g.WF) (hcompat : f.dom.Compatible g.dom) (hσ : (f.dom.merge g.dom).Valid σ) :
     (binop op f g).sem σ = op (f.sem σ) (g.sem σ) := by
-  sorry
+  have hM := Dom.merge_WF f.dom g.dom hf.1 hg.1
+  have h1 := expand_WF f _ hf hM (Dom.merge_contains_left _ _) (Dom.agrees_merge_left _ _ hf.1)
+  have h2 := expand_WF g _ hg hM (Dom.merge_contains_right _ _)
+    (Dom.agrees_merge_right _ _ hf.1 hg.1 hcompat)
+  have e1 := sem_expand f _ σ hf hM (Dom.merge_contains_left _ _) (Dom.agrees_merge_left _ _ hf.1) hσ
+  have e2 := sem_expand g _ σ hg hM (Dom.merge_contains_right _ _)
+    (Dom.agrees_merge_right _ _ hf.1 hg.1 hcompat) hσ
+  rw [← e1, ← e2]
+  have hs1 := expand_shape f (f.dom.merge g.dom)
+  have hs2 := expand_shape g (f.dom.merge g.dom)
+  unfold sem
+  rw [binop_vals, binop_dom, expand_dom, expand_dom,
+    get_reshape_of_shape_eq _ _ ((zipWith_shape op _ _).trans hs1)]
+  exact NdArr.get_zipWith op _ _ _ h1.2.2 h2.2.2 (hs1.trans hs2.symm)
+    (by rw [hs1]; exact inRange_of_valid _ hM σ hσ)
 
 theorem binop_WF (op : α → α → α) (f g : Factor α)
     (hf : f.WF) (hg : g.WF) (hcompat : f.dom.Compatible g.dom) : (binop op f g).WF := by
-  sorry
+  have hM := Dom.merge_WF f.dom g.dom hf.1 hg.1
+  have h1 := expand_WF f _ hf hM (Dom.merge_contains_left _ _) (Dom.agrees_merge_left _ _ hf.1)
+  have h2 := expand_WF g _ hg hM (Dom.merge_contains_right _ _)
+    (Dom.agrees_merge_right _ _ hf.1 hg.1 hcompat)
+  have hs1 := expand_shape f (f.dom.merge g.dom)
+  have hs2 := expand_shape g (f.dom.merge g.dom)
+  refine ⟨hM, ?_, ?_⟩
+  · rw [binop_vals, binop_dom]; rfl
+  · rw [binop_vals]
+    have hw := NdArr.zipWith_WF op _ _ h1.2.2 h2.2.2 (hs1.trans hs2.symm)
+    unfold NdArr.WF at hw ⊢
+    simp only [NdArr.reshape]
+    rw [hw, zipWith_shape, hs1]
 
 theorem sem_sub (f g : Factor α) (σ : Attr → Nat)
     (hf : f.WF) (hg : g.WF) (hcompat : f.dom.Compatible g.dom) (hσ : (f.dom.merge g.dom).Valid σ) :
     (f.sub g).sem σ = Scalar.add (f.sem σ) (negInfAware (g.sem σ)) := by
-  sorry
-
-theorem sem_div (f g : Factor α) (σ : Attr → Nat)
-    (hf : f.WF) (hg : g.WF) (hc : f.dom.contains g.dom = true) (ha : g.dom.Agrees f.dom)
-    (hσ : f.dom.Valid σ) :
-    (f.divF g).sem σ = safeDiv (f.sem σ) (g.sem σ) := by
-  sorry
+  have hM := Dom.merge_WF f.dom g.dom hf.1 hg.1
+  have hgv : g.dom.Valid σ := Dom.valid_of_agrees g.dom _ hg.1 hM (Dom.merge_contains_right _ _)
+    (Dom.agrees_merge_right _ _ hf.1 hg.1 hcompat) σ hσ
+  have hw : (mk' g.dom (g.vals.map negInfAware)).WF := by
+    refine ⟨hg.1, rfl, ?_⟩
+    have := NdArr.map_WF negInfAware g.vals hg.2.2
+    unfold NdArr.WF at this
+    show (g.vals.map negInfAware).data.size = size g.dom.shape
+    rw [this]
+    show size g.vals.shape = size g.dom.shape
+    rw [hg.2.1]
+  have hs : (mk' g.dom (g.vals.map negInfAware)).sem σ = negInfAware (g.sem σ) := by
+    show ((g.vals.map negInfAware).reshape g.dom.shape).get (g.dom.attrs.map σ) = _
+    rw [get_reshape_of_shape_eq _ _ (by show g.vals.shape = _; exact hg.2.1)]
+    apply NdArr.get_map _ _ _ hg.2.2
+    rw [hg.2.1]
+    exact inRange_of_valid _ hg.1 σ hgv
+  have := sem_binop Scalar.add f (mk' g.dom (g.vals.map negInfAware)) σ hf hw hcompat hσ
+  rw [hs] at this
+  exact this
 
 theorem sem_iop (op : α → α → α) (f g : Factor α) (σ : Attr → Nat)
     (hf : f.WF) (hg : g.WF) (hc : f.dom.contains g.dom = true) (ha : g.dom.Agrees f.dom)
     (hσ : f.dom.Valid σ) :
     (iop op f g).sem σ = op (f.sem σ) (g.sem σ) := by
-  sorry
+  have h2 := expand_WF g _ hg hf.1 hc ha
+  have e2 := sem_expand g _ σ hg hf.1 hc ha hσ
+  rw [← e2]
+  show (NdArr.zipWith op f.vals (g.expand f.dom).vals).get (f.dom.attrs.map σ) = _
+  apply NdArr.get_zipWith op _ _ _ hf.2.2 h2.2.2
+  · rw [hf.2.1]; rfl
+  · rw [hf.2.1]; exact inRange_of_valid _ hf.1 σ hσ
+
+theorem sem_div (f g : Factor α) (σ : Attr → Nat)
+    (hf : f.WF) (hg : g.WF) (hc : f.dom.contains g.dom = true) (ha : g.dom.Agrees f.dom)
+    (hσ : f.dom.Valid σ) :
+    (f.divF g).sem σ = safeDiv (f.sem σ) (g.sem σ) := by
+  have := sem_iop safeDiv f g σ hf hg hc ha hσ
+  rw [← this]
+  show ((NdArr.zipWith safeDiv f.vals (g.expand f.dom).vals).reshape f.dom.shape).get (f.dom.attrs.map σ) = _
+  rw [get_reshape_of_shape_eq _ _ (by show f.vals.shape = _; exact hf.2.1)]
+  rfl
 
 theorem iop_eq_binop (op : α → α → α) (f g : Factor α) (σ : Attr → Nat)
     (hf : f.WF) (hg : g.WF) (hc : f.dom.contains g.dom = true) (ha : g.dom.Agrees f.dom)
     (hσ : f.dom.Valid σ) :
     (iop op f g).sem σ = (binop op f g).sem σ ∧ (iop op f g).dom = (binop op f g).dom := by
-  sorry
+  have hm := Dom.merge_eq_self_of_contains f.dom g.dom hc
+  constructor
+  · rw [sem_iop op f g σ hf hg hc ha hσ,
+      sem_binop op f g σ hf hg (Dom.compatible_of_agrees _ _ hf.1 ha) (by rw [hm]; exact hσ)]
+  · show f.dom = f.dom.merge g.dom
+    exact hm.symm
+
+/-! ### reductions -/
+
+theorem filter_axes_eq (A : List Attr) (hA : A.Nodup) (as : List Attr) :
+    (List.range A.length).filter (fun j => (as.map (fun a => A.idxOf a)).contains j)
+      = (List.range A.length).filter (fun j => as.contains (A.getD j "")) := by
+  apply List.filter_congr
+  intro j hj
+  have hj' : j < A.length := by simpa using hj
+  rw [Bool.eq_iff_iff, List.contains_iff_mem, List.contains_iff_mem]
+  exact mem_map_idxOf_iff A hA "" as j hj'
+
+theorem filter_not_axes_eq (A : List Attr) (hA : A.Nodup) (as : List Attr) :
+    (List.range A.length).filter (fun j => !(as.map (fun a => A.idxOf a)).contains j)
+      = (List.range A.length).filter (fun j => !as.contains (A.getD j "")) := by
+  apply List.filter_congr
+  intro j hj
+  have hj' : j < A.length := by simpa using hj
+  congr 1
+  rw [Bool.eq_iff_iff, List.contains_iff_mem, List.contains_iff_mem]
+  exact mem_map_idxOf_iff A hA "" as j hj'
+
+theorem reduceAxes_eq (r : List α → α) (vals : NdArr α) (A : List Attr) (c : Attr → Nat)
+    (hA : A.Nodup) (hs : vals.shape = A.map c) (as : List Attr) :
+    NdArr.reduceAxes r vals (as.map (fun a => A.idxOf a)) =
+      NdArr.ofFn ((A.filter (fun a => !as.contains a)).map c)
+        (fun kidx => r ((cells ((A.filter (fun a => as.contains a)).map c)).map (fun ridx =>
+          vals.get (NdArr.assemble A.length
+            ((List.range A.length).filter (fun j => !as.contains (A.getD j "")))
+            ((List.range A.length).filter (fun j => as.contains (A.getD j ""))) kidx ridx)))) := by
+  unfold NdArr.reduceAxes
+  simp only [hs, List.length_map, filter_axes_eq A hA as, filter_not_axes_eq A hA as]
+  rw [map_shape_filter A "" c (fun a => !as.contains a),
+    map_shape_filter A "" c (fun a => as.contains a)]
+
+theorem assemble_eq (A : List Attr) (hA : A.Nodup) (q : Attr → Bool) (σ : Attr → Nat)
+    (ridx : List Nat) :
+    NdArr.assemble A.length ((List.range A.length).filter (fun j => !q (A.getD j "")))
+        ((List.range A.length).filter (fun j => q (A.getD j "")))
+        ((A.filter (fun a => !q a)).map σ) ridx
+      = A.map (fun a => if q a then ridx.getD ((A.filter q).idxOf a) 0 else σ a) := by
+  have hR : ∀ h : Attr → Nat, A.map h = (List.range A.length).map (fun j => h (A.getD j "")) := by
+    intro h
+    have := congrArg (List.map h) (map_getD_range A "")
+    rw [List.map_map] at this
+    exact this.symm
+  rw [hR]
+  unfold NdArr.assemble
+  apply List.map_congr_left
+  intro j hj
+  have hj' : j < A.length := by simpa using hj
+  by_cases hq : q (A.getD j "") = true
+  · have h1 : ((List.range A.length).filter (fun j => !q (A.getD j ""))).contains j = false := by
+      rw [Bool.eq_false_iff]
+      intro h
+      have h2 := (List.mem_filter.mp (List.contains_iff_mem.mp h)).2
+      rw [hq] at h2
+      exact absurd h2 (by decide)
+    rw [h1, if_pos hq, red_idxOf A hA "" q j hj']
+    rfl
+  · have hq' : q (A.getD j "") = false := Bool.eq_false_iff.mpr hq
+    have h1 : ((List.range A.length).filter (fun j => !q (A.getD j ""))).contains j = true :=
+      List.contains_iff_mem.mpr (List.mem_filter.mpr ⟨hj, by
+        show (!q (A.getD j "")) = true
+        rw [hq']; rfl⟩)
+    rw [if_pos h1, if_neg hq]
+    exact keep_getD A "" (fun a => !q a) σ j hj' (by
+      show (!q (A.getD j "")) = true
+      rw [hq']; rfl)
+
+theorem reduce_dom (r : List α → α) (f : Factor α) (as : List Attr) :
+    (reduce r f as).dom = f.dom.marginalize as := rfl
+
+theorem reduce_attrs (r : List α → α) (f : Factor α) (as : List Attr) :
+    (reduce r f as).dom.attrs = f.dom.invert as := by
+  rw [reduce_dom, Dom.marginalize, Dom.attrs_project]
+
+theorem reduce_vals (r : List α → α) (f : Factor α) (as : List Attr) :
+    (reduce r f as).vals = (NdArr.reduceAxes r f.vals (as.map (fun a => f.dom.attrs.idxOf a))).reshape
+      ((f.dom.attrs.filter (fun a => !as.contains a)).map f.dom.cfg) := by
+  simp only [reduce, mk', Dom.axes, Dom.marginalize, Dom.shape_project, Dom.invert]
 
 theorem sem_reduce (r : List α → α) (f : Factor α) (as : List Attr) (σ : Attr → Nat)
     (hf : f.WF) (hσ : f.dom.Valid σ) :
     (reduce r f as).sem σ
       = r ((cells ((f.dom.removed as).map f.dom.cfg)).map
             (fun v => f.sem (Dom.override σ (f.dom.removed as) v))) := by
-  sorry
+  obtain ⟨hfd, hfs, hfw⟩ := hf
+  have hs : f.vals.shape = f.dom.attrs.map f.dom.cfg := by rw [hfs, Dom.shape_eq_map_cfg _ hfd]
+  have hval := (Dom.valid_iff f.dom hfd σ).mp hσ
+  unfold sem
+  rw [reduce_attrs, reduce_vals, reduceAxes_eq r f.vals f.dom.attrs f.dom.cfg hfd hs as]
+  rw [get_reshape_of_shape_eq _ _ (NdArr.ofFn_shape _ _)]
+  unfold Dom.removed Dom.invert
+  rw [NdArr.get_ofFn _ _ _ (NdArr.inRange_map _ _ _
+    (fun a ha => hval a (List.mem_filter.mp ha).1))]
+  congr 1
+  apply List.map_congr_left
+  intro v _
+  congr 1
+  rw [assemble_eq f.dom.attrs hfd (fun a => as.contains a) σ v]
+  apply List.map_congr_left
+  intro a ha
+  unfold Dom.override
+  have h1 : (f.dom.attrs.filter (fun a => as.contains a)).contains a = as.contains a := by
+    rw [Bool.eq_iff_iff, List.contains_iff_mem]
+    simp [ha]
+  rw [h1]
 
-theorem reduce_attrs (r : List α → α) (f : Factor α) (as : List Attr) :
-    (reduce r f as).dom.attrs = f.dom.invert as := by
-  sorry
+theorem reduce_WF (r : List α → α) (f : Factor α) (as : List Attr) (hf : f.WF) :
+    (reduce r f as).WF := by
+  obtain ⟨hfd, hfs, hfw⟩ := hf
+  have hs : f.vals.shape = f.dom.attrs.map f.dom.cfg := by rw [hfs, Dom.shape_eq_map_cfg _ hfd]
+  refine ⟨?_, ?_, ?_⟩
+  · unfold Dom.WF
+    rw [reduce_attrs]
+    exact List.Nodup.sublist List.filter_sublist hfd
+  · rw [reduce_vals, reduce_dom, Dom.marginalize, Dom.shape_project]; rfl
+  · rw [reduce_vals, reduceAxes_eq r f.vals f.dom.attrs f.dom.cfg hfd hs as]
+    exact NdArr.ofFn_WF _ _
 
 theorem project_attrs (r : List α → α) (f : Factor α) (as : List Attr) :
     (project r f as).dom.attrs = as := by
-  sorry
+  unfold project
+  exact transpose_attrs _ _
 
 theorem sem_project (r : List α → α) (f : Factor α) (as : List Attr) (σ : Attr → Nat)
     (hf : f.WF) (has : as.Nodup) (hsub : ∀ a ∈ as, a ∈ f.dom.attrs) (hσ : f.dom.Valid σ) :
     (project r f as).sem σ
       = r ((cells ((f.dom.invert as).map f.dom.cfg)).map
             (fun v => f.sem (Dom.override σ (f.dom.invert as) v))) := by
-  sorry
+  have hM : (f.dom.marginalize as).attrs = f.dom.invert as := by
+    rw [Dom.marginalize, Dom.attrs_project]
+  have hval := (Dom.valid_iff f.dom hf.1 σ).mp hσ
+  have hrw := reduce_WF r f (f.dom.invert as) hf
+  have hperm : as.Perm (reduce r f (f.dom.invert as)).dom.attrs := by
+    rw [List.perm_ext_iff_of_nodup has hrw.1, reduce_attrs]
+    intro a
+    simp only [Dom.invert, List.mem_filter, Bool.not_eq_eq_eq_not, Bool.not_true]
+    constructor
+    · intro ha
+      refine ⟨hsub a ha, ?_⟩
+      simp [ha]
+    · rintro ⟨h1, h2⟩
+      simpa [h1] using h2
+  have hvalid : (reduce r f (f.dom.invert as)).dom.Valid σ := by
+    rw [reduce_dom, Dom.marginalize]
+    intro p hp
+    simp only [Dom.project, List.mem_map] at hp
+    obtain ⟨a, ha, rfl⟩ := hp
+    exact hval a (List.mem_filter.mp ha).1
+  have hrem : f.dom.removed (f.dom.invert as) = f.dom.invert as := by
+    unfold Dom.removed Dom.invert
+    apply List.filter_congr
+    intro a ha
+    rw [Bool.eq_iff_iff, List.contains_iff_mem]
+    simp [ha]
+  show ((reduce r f (f.dom.marginalize as).attrs).transpose as).sem σ = _
+  rw [hM, sem_transpose _ as σ hrw hperm hvalid, sem_reduce r f _ σ hf hσ, hrem]
+
+/-! ### conditioning -/
+
+theorem take_eq (vals : NdArr α) (A : List Attr) (c : Attr → Nat) (hs : vals.shape = A.map c)
+    (ev : List (Attr × Nat)) :
+    NdArr.take vals (A.map (fun a => ev.lookup a)) =
+      NdArr.ofFn ((A.filter (fun a => !(ev.map Prod.fst).contains a)).map c)
+        (fun kidx => vals.get ((List.range A.length).map (fun j =>
+          match ev.lookup (A.getD j "") with
+          | some i => i
+          | none => kidx.getD (((List.range A.length).filter
+              (fun j => !(ev.map Prod.fst).contains (A.getD j ""))).idxOf j) 0))) := by
+  have hkeep : (List.range A.length).filter
+        (fun j => ((A.map (fun a => ev.lookup a)).getD j none).isNone)
+      = (List.range A.length).filter (fun j => !(ev.map Prod.fst).contains (A.getD j "")) := by
+    apply List.filter_congr
+    intro j hj
+    have hj' : j < A.length := by simpa using hj
+    rw [getD_map_getD A "" (fun a => ev.lookup a) none j hj', lookup_isNone_eq]
+  unfold NdArr.take
+  simp only [hs, List.length_map]
+  rw [hkeep, map_shape_filter A "" c (fun a => !(ev.map Prod.fst).contains a)]
+  congr 1
+  funext kidx
+  congr 1
+  apply List.map_congr_left
+  intro j hj
+  have hj' : j < A.length := by simpa using hj
+  rw [getD_map_getD A "" (fun a => ev.lookup a) none j hj']
+  rfl
+
+theorem condition_attrs (f : Factor α) (ev : List (Attr × Nat)) :
+    (f.condition ev).dom.attrs = f.dom.attrs.filter (fun a => !(ev.map Prod.fst).contains a) := by
+  simp only [condition, mk', Dom.marginalize, Dom.attrs_project, Dom.invert]
+
+theorem condition_vals (f : Factor α) (ev : List (Attr × Nat)) :
+    (f.condition ev).vals = (NdArr.take f.vals (f.dom.attrs.map (fun a => ev.lookup a))).reshape
+      ((f.dom.attrs.filter (fun a => !(ev.map Prod.fst).contains a)).map f.dom.cfg) := by
+  simp only [condition, mk', Dom.marginalize, Dom.shape_project, Dom.invert]
 
 theorem sem_condition (f : Factor α) (ev : List (Attr × Nat)) (σ : Attr → Nat)
     (hf : f.WF) (hev : ∀ p ∈ ev, p.1 ∈ f.dom.attrs ∧ p.2 < f.dom.cfg p.1) (hσ : f.dom.Valid σ) :
     (f.condition ev).sem σ = f.sem (fun a => (ev.lookup a).getD (σ a)) := by
-  sorry
+  obtain ⟨hfd, hfs, hfw⟩ := hf
+  have hs : f.vals.shape = f.dom.attrs.map f.dom.cfg := by rw [hfs, Dom.shape_eq_map_cfg _ hfd]
+  have hval := (Dom.valid_iff f.dom hfd σ).mp hσ
+  unfold sem
+  rw [condition_attrs, condition_vals, take_eq f.vals f.dom.attrs f.dom.cfg hs ev]
+  rw [get_reshape_of_shape_eq _ _ (NdArr.ofFn_shape _ _)]
+  rw [NdArr.get_ofFn _ _ _ (NdArr.inRange_map _ _ _
+    (fun a ha => hval a (List.mem_filter.mp ha).1))]
+  congr 1
+  rw [map_eq_map_range f.dom.attrs "" (fun a => (ev.lookup a).getD (σ a))]
+  apply List.map_congr_left
+  intro j hj
+  have hj' : j < f.dom.attrs.length := by simpa using hj
+  cases h : ev.lookup (f.dom.attrs.getD j "") with
+  | some i => rfl
+  | none =>
+    have hq : (!(ev.map Prod.fst).contains (f.dom.attrs.getD j "")) = true := by
+      rw [← lookup_isNone_eq, h]; rfl
+    exact keep_getD f.dom.attrs "" (fun a => !(ev.map Prod.fst).contains a) σ j hj' hq
 
 end PGM.Factor
